@@ -318,7 +318,7 @@ def gen_primitive(rng, cid, nvis, bad=0.0, loss_p=0.3, kinds=None):
 
 
 # ---------------------------------------------------------------- trees of circuits
-def gen_tree_program(rng, tier, bad=0.0, loss_p=0.25, max_leaves=4):
+def gen_tree_program(rng, tier, bad=0.0, loss_p=0.25, max_leaves=4, meta=None):
     """Leaves with heralds (any declaration order, in != out modes), parents with
     primitives, additions in any order (grouped or not), nesting up to depth 3,
     primitives after additions (mode numbering skips ancillas)."""
@@ -398,4 +398,6 @@ def gen_tree_program(rng, tier, bad=0.0, loss_p=0.25, max_leaves=4):
         elif r < 0.2:
             prog.append(["unpack", parent])
         pool.append(parent)
+    if meta is not None:
+        meta.update(dict(vis=vis, opn=opn, depth=depth, last=parent))
     return prog
